@@ -11,6 +11,32 @@ use crate::types::{Item, Pr, KEYS};
 
 const MAXS: usize = 20;
 
+/// Protocol programs may also use the skipping methods `nth` / `nth_back` (which iterator
+/// types are free to override): switched on per instance.
+pub static mut USE_NTH: bool = false;
+pub fn with_nth() {
+    unsafe {
+        USE_NTH = true;
+    }
+}
+/// one step of a protocol program: (method, j) with method 0 = next, 1 = next_back,
+/// 2 = nth(j), 3 = nth_back(j)
+fn pick_step(double_ended: bool) -> (u8, usize) {
+    if unsafe { USE_NTH } {
+        let m = sym::below(4);
+        let j = sym::below(3) as usize;
+        if double_ended {
+            (m, if m >= 2 { j } else { 0 })
+        } else {
+            (if m >= 2 { 2 } else { 0 }, if m >= 2 { j } else { 0 })
+        }
+    } else if double_ended && sym::bool() {
+        (1, 0)
+    } else {
+        (0, 0)
+    }
+}
+
 fn pre_state<T: Q, const N: usize>(pre: Pre, tables: Tables) -> (T, Ghost<N>, Tab) {
     let (q, g) = state::<T, N>(pre, tables);
     let want = Tab::of_ghost(&g);
@@ -86,13 +112,14 @@ pub fn iter_mut_proto<T: Q, const N: usize>(via_ref: bool) {
     let mut pi: [*const Item; MAXS] = [core::ptr::null(); MAXS];
     let mut pp: [*const Pr; MAXS] = [core::ptr::null(); MAXS];
     let mut yielded = 0usize;
+    let mut skipped = 0usize;
     let mut seen: u32 = 0;
     let mut used_back = false;
     {
         let mut it = if via_ref { q.iter_mut_ref() } else { q.iter_mut_q() };
         let mut step = 0;
         while step < N + 2 {
-            let remaining = N - yielded;
+            let remaining = N - yielded - skipped;
             if let Some(l) = it.declared_len() {
                 // the type declares an exact size (in /repo's current source)
                 assert!(l == remaining, "ITER: iter_mut len() is the number of elements still to come");
@@ -102,13 +129,23 @@ pub fn iter_mut_proto<T: Q, const N: usize>(via_ref: bool) {
                 );
                 cover!(true, "iter_mut declares an exact size");
             }
-            let back = if <T::IterMut<'_> as MutIt>::DOUBLE_ENDED { sym::bool() } else { false };
+            let (mode, sk) = pick_step(<T::IterMut<'_> as MutIt>::DOUBLE_ENDED);
+            let back = mode == 1 || mode == 3;
             used_back |= back;
-            let r = if back { it.back() } else { it.next() };
+            let r = match mode {
+                0 => it.next(),
+                1 => it.back(),
+                2 => it.nth(sk),
+                _ => it.nth_back_q(sk),
+            };
             match r {
-                None => assert!(remaining == 0, "ITER: iter_mut returns None only after every element was yielded"),
+                None => {
+                    assert!(remaining <= sk, "ITER: iter_mut returns None only after every element was yielded");
+                    skipped += remaining;
+                }
                 Some((i, p)) => {
-                    assert!(remaining > 0, "ITER: iter_mut yields nothing after exhaustion");
+                    assert!(remaining > sk, "ITER: iter_mut yields nothing after exhaustion");
+                    skipped += sk;
                     let k = i.key & 31;
                     assert!(want0.get(k) == Some((i.pay, p.0)), "ITER: iter_mut yields stored elements");
                     assert!(seen & (1u32 << k) == 0, "ITER: iter_mut never yields the same element twice");
@@ -129,7 +166,10 @@ pub fn iter_mut_proto<T: Q, const N: usize>(via_ref: bool) {
             }
             step += 1;
         }
-        assert!(yielded == N && seen == want0.mask, "ITER: exhausting iter_mut yields every element exactly once");
+        assert!(
+            yielded + skipped == N && (skipped > 0 || seen == want0.mask),
+            "ITER: exhausting iter_mut yields every element exactly once"
+        );
     }
     assert_inv(&q);
     cover!(used_back, "next_back used");
@@ -145,24 +185,36 @@ where
     F: Fn(I::Item) -> (u8, u8, u8),
 {
     let mut yielded = 0usize;
+    let mut skipped = 0usize;
     let mut seen: u32 = 0;
     let mut step = 0;
     let mut used_back = false;
     let mut used_front = false;
     while step < n + 2 {
-        let remaining = n - yielded;
+        let remaining = n - yielded - skipped;
         if exact {
             assert!(it.len() == remaining, "ITER: len() is the number of elements still to come");
             assert!(it.size_hint() == (remaining, Some(remaining)), "ITER: size_hint() is exact");
         }
-        let back = sym::bool();
-        let r = if back { it.next_back() } else { it.next() };
+        let (mode, j) = pick_step(true);
+        let back = mode == 1 || mode == 3;
+        let r = match mode {
+            0 => it.next(),
+            1 => it.next_back(),
+            2 => it.nth(j),
+            _ => it.nth_back(j),
+        };
         match r {
-            None => assert!(remaining == 0, "ITER: None only after every element was yielded"),
+            None => {
+                assert!(remaining <= j, "ITER: None only after every element was yielded");
+                // a skipping call that runs off the end consumes what was left
+                skipped += remaining;
+            }
             Some(x) => {
                 used_back |= back;
                 used_front |= !back;
-                assert!(remaining > 0, "ITER: nothing is yielded after exhaustion");
+                assert!(remaining > j, "ITER: nothing is yielded after exhaustion");
+                skipped += j;
                 let (k, pay, prio) = f(x);
                 assert!(k < KEYS && want0.get(k) == Some((pay, prio)), "ITER: yields stored elements");
                 assert!(seen & (1u32 << k) == 0, "ITER: no element is yielded twice (from either end)");
@@ -172,8 +224,9 @@ where
         }
         step += 1;
     }
-    assert!(yielded == n && seen == want0.mask, "ITER: exhausting yields every element exactly once");
+    assert!(yielded + skipped == n && (skipped > 0 || seen == want0.mask), "ITER: exhausting yields every element exactly once");
     cover!(used_back && used_front, "both ends used");
+    cover!(!unsafe { USE_NTH } || n < 2 || skipped > 0, "elements skipped with nth / nth_back");
 }
 
 pub fn iter_proto<T: Q, const N: usize>() {
@@ -293,23 +346,38 @@ pub fn sorted_iter<T: Q, const N: usize>(tables: Tables) {
     let mut it = q.into_sorted_iter_q();
     let mut seen: u32 = 0;
     let mut yielded = 0usize;
+    let mut skipped = 0usize;
     let mut step = 0;
     let mut used_back = false;
     let mut used_front = false;
+    // the last priorities seen from the max side and from the min side (monotonicity is all
+    // that can still be said once elements have been skipped with nth / nth_back)
+    let mut last_max: Option<u8> = None;
+    let mut last_min: Option<u8> = None;
     while step < N + 2 {
-        let remaining = N - yielded;
+        let remaining = N - yielded - skipped;
         if let Some(l) = it.declared_len() {
             assert!(l == remaining, "SORT: len() is the number of elements remaining");
             assert!(it.size_hint() == (remaining, Some(remaining)), "SORT: size_hint() is exact");
         }
-        let back = if T::DOUBLE { sym::bool() } else { false };
-        let r = if back { it.back() } else { it.next() };
+        let (mode, sk) = pick_step(T::DOUBLE);
+        let back = mode == 1 || mode == 3;
+        let r = match mode {
+            0 => it.next(),
+            1 => it.back(),
+            2 => it.nth(sk),
+            _ => it.nth_back_q(sk),
+        };
         match r {
-            None => assert!(remaining == 0, "SORT: None only after every element was yielded"),
+            None => {
+                assert!(remaining <= sk, "SORT: None only after every element was yielded");
+                skipped += remaining;
+            }
             Some((i, p)) => {
                 used_back |= back;
                 used_front |= !back;
-                assert!(remaining > 0, "SORT: nothing is yielded after exhaustion");
+                assert!(remaining > sk, "SORT: nothing is yielded after exhaustion");
+                skipped += sk;
                 let k = i.key & 31;
                 assert!(want0.get(k) == Some((i.pay, p.0)), "SORT: yields stored elements");
                 assert!(seen & (1u32 << k) == 0, "SORT: no element is yielded twice (from either end)");
@@ -318,23 +386,84 @@ pub fn sorted_iter<T: Q, const N: usize>(tables: Tables) {
                 // an extreme of what remained: the PriorityQueue iterator and next_back
                 // yield a maximum, the DoublePriorityQueue's next a minimum
                 let want_max = !T::DOUBLE || back;
-                let mut s = 0;
-                while s < N {
-                    if seen & (1u32 << gh.key[s]) == 0 {
-                        if want_max {
-                            assert!(p.0 >= gh.prio[s], "SORT: yields a maximum of what remains");
-                        } else {
-                            assert!(p.0 <= gh.prio[s], "SORT: yields a minimum of what remains");
+                if want_max {
+                    assert!(last_max.map_or(true, |m| p.0 <= m), "SORT: non-increasing from the maximum side");
+                    last_max = Some(p.0);
+                } else {
+                    assert!(last_min.map_or(true, |m| p.0 >= m), "SORT: non-decreasing from the minimum side");
+                    last_min = Some(p.0);
+                }
+                if skipped == 0 {
+                    let mut s = 0;
+                    while s < N {
+                        if seen & (1u32 << gh.key[s]) == 0 {
+                            if want_max {
+                                assert!(p.0 >= gh.prio[s], "SORT: yields a maximum of what remains");
+                            } else {
+                                assert!(p.0 <= gh.prio[s], "SORT: yields a minimum of what remains");
+                            }
                         }
+                        s += 1;
                     }
-                    s += 1;
                 }
             }
         }
         step += 1;
     }
-    assert!(yielded == N && seen == want0.mask, "SORT: every element is yielded exactly once");
+    assert!(
+        yielded + skipped == N && (skipped > 0 || seen == want0.mask),
+        "SORT: every element is yielded exactly once"
+    );
     cover!(!T::DOUBLE || N < 2 || (used_back && used_front), "both ends used");
+    cover!(true, "reach: end of harness");
+}
+
+/// One skipping call (`nth(J)` / `nth_back(J)`, J concrete) on a fresh sorted iterator, then
+/// the rest through `next`: the call yields iff more than J elements are stored and consumes
+/// J + 1 of them (everything when it runs off the end); what follows is the remainder, in
+/// order, then `None`. (Adaptors such as `skip` and `step_by` are built on these methods.)
+pub fn sorted_skip<T: Q, const N: usize, const J: usize>(back: bool) {
+    let (q, _gh, want0) = pre_state::<T, N>(Pre::Inv, Tables::Any);
+    let mut it = q.into_sorted_iter_q();
+    let r = if back { it.nth_back_q(J) } else { it.nth(J) };
+    assert!(r.is_some() == (J < N), "SORT: nth(j) yields iff more than j elements remain");
+    let left = if J < N { N - J - 1 } else { 0 };
+    if let Some(l) = it.declared_len() {
+        assert!(l == left, "SORT: len() after a skipping call is the number of elements remaining");
+    }
+    let mut seen: u32 = 0;
+    let mut last: Option<u8> = None;
+    if let Some((i, p)) = r {
+        let k = i.key & 31;
+        assert!(want0.get(k) == Some((i.pay, p.0)), "SORT: yields stored elements");
+        seen |= 1u32 << k;
+        if !back {
+            last = Some(p.0);
+        }
+    }
+    let mut c = 0;
+    let mut step = 0;
+    while step < N + 1 {
+        match it.next() {
+            None => {}
+            Some((i, p)) => {
+                assert!(c < left, "SORT: nothing is yielded after exhaustion");
+                let k = i.key & 31;
+                assert!(want0.get(k) == Some((i.pay, p.0)), "SORT: yields stored elements");
+                assert!(seen & (1u32 << k) == 0, "SORT: no element is yielded twice");
+                seen |= 1u32 << k;
+                if T::DOUBLE {
+                    assert!(last.map_or(true, |m| p.0 >= m), "SORT: non-decreasing from the minimum side");
+                } else {
+                    assert!(last.map_or(true, |m| p.0 <= m), "SORT: non-increasing from the maximum side");
+                }
+                last = Some(p.0);
+                c += 1;
+            }
+        }
+        step += 1;
+    }
+    assert!(c == left, "SORT: a skipping call consumes j + 1 elements (all of them when it runs off the end)");
     cover!(true, "reach: end of harness");
 }
 
